@@ -171,6 +171,31 @@ pub fn cause_of(e: &SummaryError) -> Option<os::Cause> {
     }
 }
 
+/// "The error identifies the cause" also for a caller that only has the
+/// error's text (`to_string()`, or the `io::Error` a stream write returns):
+/// the pkg_summary variable names occurring in the text of a missing-variable
+/// error - as whole words - must be exactly the missing variable.
+/// With `must_name == false` the name may be absent but no other may appear.
+pub fn text_names_only(text: &str, var: usize, must_name: bool) -> Result<(), String> {
+    let mut named: Vec<&str> = text
+        .split(|c: char| !(c.is_ascii_uppercase() || c == '_'))
+        .filter(|w| VARS.iter().any(|v| v.name == *w))
+        .collect();
+    named.sort();
+    named.dedup();
+    let want = VARS[var].name;
+    let ok = match named.as_slice() {
+        [] => !must_name,
+        [one] => *one == want,
+        _ => false,
+    };
+    if ok {
+        Ok(())
+    } else {
+        Err(format!("the error for a missing {want} reads {text:?}, which names {named:?}"))
+    }
+}
+
 pub fn show_val(v: &Option<Val>) -> String {
     match v {
         None => "unset".into(),
